@@ -121,6 +121,8 @@ def solve_sat(
     for clause in clauses:
         for lit in clause:
             n_vars = max(n_vars, lit_var(lit))
+    for lit in assumptions:
+        n_vars = max(n_vars, lit_var(lit))
 
     if n_vars == 0:
         return Result({}, 0, 0, 0)
